@@ -395,10 +395,18 @@ func runC18(cfg *vc.Config, rep *vc.Report) {
 			return nil
 		}
 		target := "/api/ledger/v2/l1/_bulk"
+		// spellings a client clearly means as on / off (others - "yes", "t", a bare parameter - are left out: the
+		// statement does not say how they read)
+		spelling := ""
 		if cont {
-			target += "?continueOnFailure=true"
+			spelling = vc.Pick(r, []string{"true", "true", "1", "TRUE", "True"})
+			target += "?continueOnFailure=" + spelling
+		} else if r.Chance(1, 2) {
+			spelling = vc.Pick(r, []string{"false", "0", "False", "FALSE", "no", "off"})
+			target += "?continueOnFailure=" + spelling
+			rep.Inc("bulks_with_option_explicitly_off")
 		}
-		desc := map[string]any{"index": i, "continueOnFailure": cont, "elements": plan}
+		desc := map[string]any{"index": i, "continueOnFailure": cont, "spelling": spelling, "elements": plan}
 		rep.Current(desc)
 		rep.Eval()
 		code, body, pv := serve(h, "POST", target, sb.String(), nil)
